@@ -70,6 +70,7 @@ static void walker_switch_hook(int from, int to) {
 }
 void walkers_reset(int n) {
   g_wstat.assign((size_t)n, ModuleStatics());
+  ModuleStatics().load();   // no module is alive at this point: start from the library's initial values
   sched_set_switch_hook(n > 1 ? walker_switch_hook : nullptr);
 }
 ModuleStatics &walker_statics(int w) { return g_wstat[(size_t)w]; }
@@ -365,6 +366,7 @@ int Engine::single_step() {
 int Engine::run(int n, bool graceful_end) {
   int err = COLVARS_OK;
   for (int k = 0; k <= n; k++) {
+    if (halted) return err;
     if (dead || fs().is_dead(cfg.walker)) { dead = true; return err; }
     if (first_run && k == 0) {
       // first calc of a fresh process (NAMD: first_timestep branch)
@@ -386,7 +388,9 @@ int Engine::run(int n, bool graceful_end) {
       colvars->it++;
       b_simulation_continuing = false;
     }
+    if (before_step) before_step((long)cvm::step_absolute());
     err |= single_step();
+    if (halt_on_error && (cvm::get_error() || err != COLVARS_OK)) { halted = true; halt_message = last_error(); first_step = (long)cvm::step_absolute(); return err; }
     if (after_step) after_step((long)cvm::step_absolute());
     sched_yield(Y_STEP, (uint64_t)cvm::step_absolute());
     if (dead || fs().is_dead(cfg.walker)) { dead = true; return err; }
